@@ -94,6 +94,17 @@ type Sched struct {
 	steps    atomic.Int64   // progress counter for the watchdog
 }
 
+// knownYieldSites are the yield points of the pinned tree (hook commits in
+// /repo). Any other name reaching the scheduler comes from the tree under test.
+var knownYieldSites = map[string]bool{
+	"archive.file": true, "archive.pubkey": true, "auth.preforward": true, "csync.postdial": true, "csync.postmerge": true,
+	"csync.predial": true, "csync.premerge": true, "csync.resend": true, "csync.start": true, "csync.wake": true,
+	"impact.listed": true, "impact.prelock": true, "impact.wake": true, "migrate.catchup": true, "migrate.checked": true,
+	"migrate.prelock": true, "migrate.wake": true, "order.prelock": true, "send.tick": true, "send.wake": true,
+	"srvauth.between": true, "srvauth.prenet": true, "stats.postlock": true, "sync.between": true, "week.listed": true,
+	"week.prelock": true, "week.wake": true, "task.start": true,
+}
+
 // alwaysOn lists the sites at which goroutines woken by a timer (or freshly
 // spawned) park in every run, so that the order of same-instant wake-ups is a
 // recorded decision and never left to the Go scheduler.
@@ -164,7 +175,9 @@ func (s *Sched) yield(owner interface{}, site string) {
 		fn(node, site, owner)
 		s.mu.Lock()
 	}
-	if strings.HasPrefix(site, "auto.") {
+	if strings.HasPrefix(site, "auto.") || !knownYieldSites[site] {
+		// (A site name the pinned tree does not have was added by the change
+		// under test: it marks a gap like an inserted site does.)
 		// Inserted in front of a lock acquisition in the rewritten copy of the
 		// repository (A flavour). Never park inside a critical section: a
 		// goroutine that already holds a mutex of its node runs on.
